@@ -172,7 +172,7 @@ example :
 
 Layers are listed in increasing precedence (`mergeSettings(cmdArgs, env)`: command line, then
 environment). `mergeFixed = true` is fixes/C32-settings-merge-keeps-cli-slices.patch,
-`keepUnusable = true` is fixes/C32-settings-separators-only-proxy-list.patch. -/
+`keepUnusable = true` is fixes/C32-separators-only-narrow.patch. -/
 
 section Settings
 open Pithos.Ascii Pithos.ProxySettings
